@@ -116,6 +116,13 @@ class Profile:
             cdict[var] = val
 
         for key in cdict:
+            if key.startswith("fit param"):
+                # fit parameters: "fit param E value", "fit param E vary"
+                if key.endswith("vary"):
+                    cdict[key] = cdict[key].lower() == "true"
+                else:
+                    cdict[key] = float(cdict[key])
+                continue
             default = DEFAULTS[key]
             if isinstance(default, list):
                 val = cdict[key].split(",")
